@@ -408,6 +408,28 @@ func c13RestartBody(t *testing.T, s *sim.Scn, o *sim.Outcome) {
 			rw.aggAddr = fmt.Sprintf("%s/p2p/%s", addr, pid)
 		}
 	}
+	if j := s.Cfg["jitter"]; j > 0 {
+		// a slow disk, without simulated time (which cannot be spent under the locks these paths hold): about one
+		// goroutine in three lets every other runnable goroutine go first j times at each of its datastore operations. Which of two
+		// goroutines that become runnable at the same instant gets where first is otherwise always the same.
+		for _, rn := range rw.nodes {
+			rn.sn.Disk.Yield = spinJitter(j, uint64(s.Cfg["jsalt"]))
+		}
+		o.Count("fault:disk-scheduling-jitter", 1)
+	}
+	if rl := s.Cfg["readlat"]; rl > 0 {
+		// point reads of the block store (not of the go-header stores, which are read under go-header's locks)
+		// take simulated time
+		for _, rn := range rw.nodes {
+			rn.sn.Disk.ReadDelay = func(key string) {
+				switch sim.LabelKey(key) {
+				case "header", "data", "sig", "index", "state", "height":
+					time.Sleep(time.Duration(rl) * time.Millisecond)
+				}
+			}
+		}
+		o.Count("fault:block-store-read-latency", 1)
+	}
 	agg := rw.nodes[0]
 	fulls := rw.nodes[1 : 1+nfull]
 	rw.w.DA.Latency = time.Duration(s.Cfg["dalat"]) * time.Millisecond
@@ -746,10 +768,29 @@ func c13RestartBody(t *testing.T, s *sim.Scn, o *sim.Outcome) {
 	o.NonTrivial = o.Counters["timeline:start"] > 0 || o.Counters["timeline:cut"] > 0
 }
 
+// spinJitter returns a datastore yield hook that makes about one goroutine in three a slow one: each of its
+// datastore operations first yields the processor n times (the others are not delayed at all), so that of two
+// goroutines that become runnable at the same instant sometimes the one with fewer steps arrives last.
+func spinJitter(n int64, salt uint64) func() {
+	return func() {
+		x := (goid() + salt) * 0x9E3779B97F4A7C15
+		x ^= x >> 29
+		x *= 0xBF58476D1CE4E5B9
+		x ^= x >> 32
+		if x%3 != 0 {
+			return
+		}
+		for k := n; k > 0; k-- {
+			runtime.Gosched()
+		}
+	}
+}
+
 func c13RestartGen(r *rand.Rand, tier string) *sim.Scn {
 	s := &sim.Scn{Cfg: map[string]int64{
 		"restart": 1, "nfull": r.Int64N(2), "bt": []int64{250, 500, 1000}[r.IntN(3)], "dat": []int64{1000, 3000}[r.IntN(2)],
 		"lazy": r.Int64N(2), "maxpending": []int64{0, 0, 3}[r.IntN(3)], "dalat": []int64{0, 5, 50}[r.IntN(3)], "linkms": []int64{0, 3, 18, 38}[r.IntN(4)], "eager": r.Int64N(2), "light": []int64{0, 0, 1}[r.IntN(3)], "p2ponly": r.Int64N(2),
+		"jitter": []int64{0, 0, 40, 400, 4000}[r.IntN(5)], "jsalt": r.Int64N(1 << 30),
 	}}
 	n := 4 + r.IntN(10)
 	for i := 0; i < n; i++ {
